@@ -565,6 +565,23 @@ def model_specs(draw, profile=None):
             if g.coin(p.get("comp_yfactor", 0.0)):
                 data["yf"][c["name"]] = {pop: g.pick([0.5, 2.0, 1.5]) for pop in g.subset(pops, min_size=1)}
                 g.labels.add("data:comp-y-factor")
+    # a junction that gets its initial people INDIRECTLY: it has no databook entry of its own and no default value, but a databook
+    # characteristic "xi" = ordinary compartment + junction is entered together with that compartment, so the junction starts with the
+    # remainder (and must be flushed before the first step like any other initialised junction)
+    free_j = [c for c in spec["comps"] if c["kind"] == "junc" and not c["db"]]
+    dbc = [c for c in spec["comps"] if c["kind"] == "ord" and c["db"] and c["name"].startswith("c")]
+    if free_j and dbc and g.coin(p.get("p_indirect_junction", 0.12)):
+        j, oc = g.pick(free_j), g.pick(dbc)
+        j["free"] = True
+        spec["characs"].append({"name": "xi", "inc": [oc["name"], j["name"]], "den": None, "db": True})
+        extra = {pop: g.pick([0.0, 1.0, 50.0, 200.0, 1e3]) for pop in pops}
+        data["q"]["xi"] = {}
+        for pop in pops:
+            e = data["q"][oc["name"]][pop]
+            v = (e["v"][0] if "v" in e else e["a"]) * data["yf"].get(oc["name"], {}).get(pop, 1.0)
+            data["q"]["xi"][pop] = {"t": [start], "v": [v + extra[pop]]}
+        spec["indirect_init"] = {j["name"]: {"charac": "xi", "other": oc["name"]}}
+        g.labels.add("junction:initialised-indirectly")
     for name, d in pars.items():
         if not d["db"]:
             continue
